@@ -35,6 +35,7 @@ type cachedFile struct {
 type Loader struct {
 	mu     sync.RWMutex
 	cache  map[string]cachedFile
+	epoch  uint64 // grows with every invalidation: a file read before it must not be cached after it
 	limits Limits
 }
 
@@ -245,6 +246,7 @@ func (l *Loader) loadSingleInclude(
 
 	l.mu.RLock()
 	cached, ok := l.cache[includePath]
+	epoch := l.epoch
 	l.mu.RUnlock()
 	if ok {
 		errors = append(errors, cached.parseErrs...)
@@ -290,7 +292,11 @@ func (l *Loader) loadSingleInclude(
 	errors = append(errors, parseErrs...)
 	if journal != nil {
 		l.mu.Lock()
-		l.cache[includePath] = cachedFile{journal: journal, parseErrs: parseErrs}
+		// Loads run concurrently with notifications: if something was invalidated while
+		// this file was being read, what was read may already be out of date.
+		if l.epoch == epoch {
+			l.cache[includePath] = cachedFile{journal: journal, parseErrs: parseErrs}
+		}
 		l.mu.Unlock()
 	}
 
@@ -346,10 +352,12 @@ func (l *Loader) ClearCache() {
 	l.mu.Lock()
 	defer l.mu.Unlock()
 	l.cache = make(map[string]cachedFile)
+	l.epoch++
 }
 
 func (l *Loader) InvalidateFile(path string) {
 	l.mu.Lock()
 	defer l.mu.Unlock()
 	delete(l.cache, path)
+	l.epoch++
 }
